@@ -349,7 +349,17 @@ class Gen:
         for fid in range(p.nF):
             if r.chance(p.body_prob):
                 ln = p.body_len[0] + r.below(p.body_len[1] - p.body_len[0] + 1)
-                self.bodies[fid] = [self.one(p.bw, in_body=True) for _ in range(ln)]
+                body = [self.one(p.bw, in_body=True) for _ in range(ln)]
+                # `emit` directly before `throw`: the harness performs every other such emission during
+                # stack unwinding (from a destructor), see sigc_harness.cc Interp::leaf
+                if p.bw.get("emit", 0) > 0 and self.G:
+                    body2 = []
+                    for l in body:
+                        if l == "throw" and not (body2 and body2[-1].startswith("emit ")) and r.chance(0.3):
+                            body2.append(self.one({"emit": 1}, in_body=True))
+                        body2.append(l)
+                    body = body2
+                self.bodies[fid] = body
         out = ["maxdepth %d" % p.maxdepth] + (["owners"] if self.owners else [])
         for fid, b in sorted(self.bodies.items()):
             out.append("body %d" % fid)
